@@ -1,0 +1,26 @@
+//go:build verif
+
+package name
+
+// Exports for the verification harness (/verif, property C14).  Add-only; no behaviour change.
+
+// VerifKeys is (*Table).keys.
+func (t *Table) VerifKeys() []ID { return t.keys() }
+
+// VerifGet is (*Table).get.
+func (t *Table) VerifGet(id ID) string { return t.get(id) }
+
+// VerifSet is (*Table).set.
+func (t *Table) VerifSet(id ID, val string) { t.set(id, val) }
+
+// VerifUtf16Encode is utf16Encode.
+func VerifUtf16Encode(s string) []byte { return utf16Encode(s) }
+
+// VerifUtf16Decode is utf16Decode.
+func VerifUtf16Decode(b []byte) string { return utf16Decode(b) }
+
+// VerifAppleBCP returns the Macintosh language table.
+func VerifAppleBCP() map[uint16]string { return appleBCP }
+
+// VerifMsBCP returns the Windows language table.
+func VerifMsBCP() map[uint16]string { return msBCP }
